@@ -38,12 +38,14 @@ def build(assets, adjust):
     return ds
 
 
-def ask_all(ds, queries):
+def ask_all(ds, queries, tz=None):
     dh = BacktestDataHandler(None, data_sources=[ds])
     out = []
     for a, t in queries:
         sym = 'EQ:' + a
         dt = ts(t)
+        if tz:
+            dt = dt.tz_convert(tz)
         ba = dh.get_asset_latest_bid_ask_price(dt, sym)
         out.append([num(ds.get_bid(dt, sym)), num(ds.get_ask(dt, sym)),
                     num(dh.get_asset_latest_bid_price(dt, sym)), num(dh.get_asset_latest_ask_price(dt, sym)),
@@ -58,7 +60,11 @@ def handler(c):
         df = ds.asset_bar_frames['EQ:' + a]
         loaded[a] = [[int(idx.timestamp()) // 86400, num(r['Open']), num(r['Close']), num(r['Adj Close'])]
                      for idx, r in df.iterrows()]
-    res = {'loaded': loaded, 'answers': ask_all(ds, c['queries'])}
+    res = {'loaded': loaded}
+    if c.get('tz'):
+        # the same instants expressed in another time zone, asked of a fresh source (so that no memoised answer is reused)
+        res['answers_tz'] = ask_all(build(c['assets'], c['adjust']), c['queries'], tz=c['tz'])
+    res['answers'] = ask_all(ds, c['queries'])
     if c.get('cut_day') is not None:
         cut = c['cut_day']
         trunc = dict((a, [r for r in rows if r[0] <= cut]) for a, rows in c['assets'].items())
